@@ -582,6 +582,9 @@ class RPCInterface:
         """
         # WARN: do NOT check OPERATION (it is used internally in DISTRIBUTION state)
         _, process = self._get_application_process(namespec)
+        if not process:
+            # a namespec such as 'group:*' designates an application, not a process
+            self._raise(Faults.BAD_NAME, 'start_args', f'namespec={namespec} does not designate a process')
         # update command line in process config with extra_args
         try:
             self.supvisors.supervisor_data.update_extra_args(process.namespec, extra_args)
